@@ -117,7 +117,7 @@ impl SubCheck for Builders {
 		"builders"
 	}
 	fn cases(&self, tier: Tier) -> u32 {
-		tier.pick(80_000, 3_000_000)
+		tier.pick(500_000, 10_000_000)
 	}
 	fn strategy(&self, tier: Tier) -> BoxedStrategy<BuilderCase> {
 		let d = tier.pick(3, 5);
@@ -253,7 +253,7 @@ impl SubCheck for Blanket {
 		"blanket-impls"
 	}
 	fn cases(&self, tier: Tier) -> u32 {
-		tier.pick(6_000, 200_000)
+		tier.pick(40_000, 800_000)
 	}
 	fn strategy(&self, tier: Tier) -> BoxedStrategy<BlanketCase> {
 		let d = tier.pick(2, 4);
